@@ -1,6 +1,8 @@
 package rules
 
 import (
+	"fmt"
+	"go/token"
 	"go/types"
 	"strings"
 
@@ -130,7 +132,216 @@ func init() {
 		Level: "other",
 		Explanation: "Decides the assembly half of the claim flow structurally: C12-assemble — ClaimProofHandler looks up ONE L1 info leaf by the leaf_index parameter; the L1 branch (network 0 only) proves deposit_count against that leaf's MainnetExitRoot; the L2 branch (this node's network only) first obtains the local exit root as the leaf of the rollup exit tree at that leaf's RollupExitRoot and proves deposit_count against THAT root; the rollup proof is asked for (network, info.RollupExitRoot); the 200 response carries the proofs obtained and the same leaf; C12-error — an error of any of the five lookups ends the handler before the 200 response. Declined: the two binary searches getFirstL1InfoTreeIndexFor{L1,L2}Bridge — their correctness is monotonicity plus midpoint arithmetic over runtime data, which no structural rule in reach decides; that the proofs verify is C08's orientation argument only.",
 		Rules: []Rule{
+			{ID: "C12-cover", Floor: 3, Run: c12Cover, Text: "[DOM] safety of both index searches: every record that can become the answer was compared (root.Index >= depositCount) on the selecting path; root façade pass-through"},
+			{ID: "C12-tree", Floor: 9, Run: func(c *core.Ctx) { storeRule(c, "C12-tree") }, Text: "(shared with C08-store) every path node stored; lookups by key; ErrNotFound only for no rows"},
 			{ID: "C12-assemble", Floor: 12, Run: c12Assemble, Text: "[PROV]+[DOM] proof assembly per network from one info leaf; response; error exits"},
 		},
 	})
+}
+
+// phiLeaves flattens nested phis: every non-phi value that can flow into v, with the phi edge it enters through.
+type phiLeaf struct {
+	val ssa.Value
+	phi *ssa.Phi // nil when v itself is the leaf
+	idx int
+}
+
+func phiLeaves(v ssa.Value) []phiLeaf {
+	var out []phiLeaf
+	seen := map[*ssa.Phi]bool{}
+	var rec func(x ssa.Value, p *ssa.Phi, i int)
+	rec = func(x ssa.Value, p *ssa.Phi, i int) {
+		if ph, ok := x.(*ssa.Phi); ok {
+			if seen[ph] {
+				return
+			}
+			seen[ph] = true
+			for k, e := range ph.Edges {
+				rec(e, ph, k)
+			}
+			return
+		}
+		out = append(out, phiLeaf{x, p, i})
+	}
+	rec(v, nil, 0)
+	return out
+}
+
+// c12Cover: the safety half of the two L1-info-index searches. Whatever the search does, the record whose index it
+// answers with was compared against the bridge: its exit root's tree root has Index >= depositCount on every path
+// on which it becomes the answer. (Minimality of the answer is not part of the property and is not checked.)
+func c12Cover(c *core.Ctx) {
+	const rule = "C12-cover"
+	for _, w := range []struct{ fn, rootField, via string }{
+		{"getFirstL1InfoTreeIndexForL1Bridge", "MainnetExitRoot", ""},
+		{"getFirstL1InfoTreeIndexForL2Bridge", "ExitRoot", "GetFirstL1InfoWithRollupExitRoot"},
+	} {
+		fn := c.MustFn(rule, "bridgeservice", "BridgeService", w.fn)
+		if fn == nil {
+			continue
+		}
+		label := "bridgeservice.(*BridgeService)." + w.fn
+		dep := ssa.Value(fn.Params[2])
+		// the record that names the answer
+		var base ssa.Value
+		fieldBase := func(v ssa.Value, field string) ssa.Value {
+			u, ok := v.(*ssa.UnOp)
+			if !ok {
+				return nil
+			}
+			fa, ok := u.X.(*ssa.FieldAddr)
+			if !ok || fieldNameOf(fa) != field {
+				return nil
+			}
+			return fa.X
+		}
+		okShape := false
+		for _, r := range core.Returns(fn) {
+			if len(r.Results) != 2 || !isNilConst(r.Results[1]) {
+				continue
+			}
+			b := fieldBase(r.Results[0], "L1InfoTreeIndex")
+			if b == nil {
+				continue
+			}
+			if w.via == "" {
+				base, okShape = b, true
+			} else if ex, ok := b.(*ssa.Extract); ok && ex.Index == 0 {
+				if cl, ok := ex.Tuple.(*ssa.Call); ok && cl.Call.IsInvoke() && cl.Call.Method.Name() == w.via {
+					if bb := fieldBase(cl.Call.Args[0], "RollupExitRoot"); bb != nil {
+						// the success return is reached only when that lookup succeeded
+						nilE := core.NilEdgesRes(fn, core.ErrValueOf(cl), true)
+						if len(nilE) > 0 && core.ReachableWithout(core.After(cl), nilE, func(x ssa.Instruction) bool { return x == ssa.Instruction(r) }) == nil {
+							base, okShape = bb, true
+						}
+					}
+				}
+			}
+		}
+		if !okShape {
+			c.Violate(rule, label+"#answer", fn.Pos(), "the successful return is not `<record>.L1InfoTreeIndex` of the selected record (or of the first L1 info leaf with that record's rollup exit root)")
+			continue
+		}
+		leaves := phiLeaves(base)
+		allOK := true
+		detail := []string{}
+		for _, lf := range leaves {
+			ex, ok := lf.val.(*ssa.Extract)
+			var call *ssa.Call
+			if ok && ex.Index == 0 {
+				call, _ = ex.Tuple.(*ssa.Call)
+			}
+			if call == nil {
+				allOK = false
+				detail = append(detail, fmt.Sprintf("candidate of unknown origin %T", lf.val))
+				continue
+			}
+			name := core.CallName(call)
+			if call.Call.IsInvoke() {
+				name = call.Call.Method.Name()
+			}
+			// covering edges for this candidate: !(root.Index < dep) where root = GetRootByLER(ctx, cand.<rootField>)
+			isRootIdx := func(v ssa.Value) bool {
+				b := fieldBase(v, "Index")
+				rex, ok := b.(*ssa.Extract)
+				if !ok || rex.Index != 0 {
+					return false
+				}
+				rc, ok := rex.Tuple.(*ssa.Call)
+				if !ok || !rc.Call.IsInvoke() || rc.Call.Method.Name() != "GetRootByLER" {
+					return false
+				}
+				return fieldBase(rc.Call.Args[1], w.rootField) == lf.val
+			}
+			var cover []core.IfEdge
+			for _, want := range []bool{true, false} {
+				want := want
+				cover = append(cover, core.IfEdgesWhere(fn, func(cond ssa.Value) bool {
+					b, ok := cond.(*ssa.BinOp)
+					if !ok {
+						return false
+					}
+					l, r := isRootIdx(b.X) && b.Y == dep, isRootIdx(b.Y) && b.X == dep
+					switch b.Op {
+					case token.LSS: // idx < dep: covering on false | dep < idx: covering on true
+						return l && !want || r && want
+					case token.GEQ: // idx >= dep: true | dep >= idx: covering only if ==; not accepted
+						return l && want
+					case token.LEQ: // dep <= idx: true
+						return r && want
+					case token.GTR: // dep > idx: false | idx > dep: true
+						return r && !want || l && want
+					case token.EQL:
+						return (l || r) && want
+					}
+					return false
+				}, want)...)
+			}
+			if lf.phi == nil {
+				// the answer is this record on every path: the return itself must be behind a covering edge
+				allOK = false
+				detail = append(detail, name+": single candidate without a loop (unexpected shape)")
+				continue
+			}
+			pred := lf.phi.Block().Preds[lf.idx]
+			to := lf.phi.Block()
+			f := (&core.Walk{
+				Stop:       func(x ssa.Instruction) bool { return x == ssa.Instruction(call) },
+				EdgeOK:     core.Forbid(cover),
+				TargetEdge: func(from *ssa.BasicBlock, si int) bool { return from == pred && from.Succs[si] == to },
+			}).From(core.After(call), nil)
+			if len(cover) == 0 || f != nil {
+				allOK = false
+				detail = append(detail, fmt.Sprintf("%s result becomes the answer without having been compared (root.Index >= depositCount) %s", name, core.PathStr(f)))
+			} else {
+				detail = append(detail, name+": compared")
+			}
+		}
+		c.Decide(allOK && len(leaves) >= 2, rule, label+"#every-candidate-covers", fn.Pos(), fmt.Sprintf("each record that can become the answer was checked to cover the bridge on the path that selects it: %v", detail))
+	}
+	// the façade the searches compare against hands back the store's root or an error, never a made-up root
+	fa := c.MustFn(rule, "bridgesync", "BridgeSync", "GetRootByLER")
+	if fa != nil {
+		var call *ssa.Call
+		core.Instrs(fa, func(i ssa.Instruction) {
+			if cl, isC := i.(*ssa.Call); isC && core.CallName(i) == "(*tree.Tree).GetRootByHash" {
+				call = cl
+			}
+		})
+		ok, n := call != nil, 0
+		if call != nil {
+			sx := core.NewSymx()
+			ok = strings.HasSuffix(sx.Of(call.Call.Args[2]).String(), "ler") && sx.Of(call.Call.Args[2]).String() == "ler"
+			r0, r1 := core.ExtractOf(call, 0), core.ExtractOf(call, 1)
+			nilE := core.NilEdgesRes(fa, r1, true)
+			for _, rc := range core.ReturnCases(fa) {
+				if len(rc.Values) != 2 || isNilConst(rc.Values[0]) {
+					continue // no root handed out
+				}
+				n++
+				switch {
+				case rc.Values[0] != r0:
+					ok = false // a root that is not the store's answer
+				case rc.Values[1] == r1:
+					// (root, err) of the store handed through together
+				case isNilConst(rc.Values[1]):
+					ok = ok && len(nilE) > 0 && rc.ReachableOnlyVia(fa, nilE)
+				default:
+					ok = false
+				}
+			}
+		}
+		c.Decide(ok && n >= 1, rule, "bridgesync.(*BridgeSync).GetRootByLER#pass-through", fa.Pos(), "a root is handed out only as the store's answer for that exit root, together with the store's error or behind its success edge (a failed lookup is never turned into a root)")
+	}
+}
+
+func fieldNameOf(fa *ssa.FieldAddr) string {
+	t := fa.X.Type().Underlying()
+	if p, ok := t.(*types.Pointer); ok {
+		t = p.Elem().Underlying()
+	}
+	if st, ok := t.(*types.Struct); ok {
+		return st.Field(fa.Field).Name()
+	}
+	return ""
 }
